@@ -250,7 +250,7 @@ pub fn create_temp_db(
     return Arc::new(Database::create_db_from_hash(
         name,
         initial_db,
-        DatabaseMataData::new(dbs.map.read().expect("could not get lock").len(), strategy),
+        DatabaseMataData::new(dbs.next_database_id(), strategy),
     ));
 }
 
